@@ -122,7 +122,7 @@ def targets():
     ]
 
 
-STAGES = [['C11_norm.v', 'C11_gate.v'], ['C11_routes.v', 'C11_qdcm.v'], ['C11.v']]
+STAGES = [['C11_norm.v', 'C11_gate.v'], ['C11_routes.v', 'C11_qdcm.v', 'C11_gate_tol.v'], ['C11_tol.v', 'C11.v']]
 
 
 def pregen(ctx):
@@ -157,8 +157,37 @@ def nearest_rotation(Mx):
     return U @ D @ Vt
 
 
+# thin regions of the vector length: narrow bands around 1 (where an `isclose(norm, 1)` shortcut would bite), around 0
+# (where an `isclose(norm, 0)` zero test would bite), and the ends of the property's range
+BANDS = [1.0, 1 + 1e-3, 1 - 1e-3, 1 + 1e-5, 1 - 1e-5, 1 + 6e-6, 1 - 4e-6, 1 + 1e-6, 1 - 1e-6, 1 + 1e-7, 1 - 1e-7, 1 + 1e-9, 1 - 1e-9,
+         1e-7, 1e-8, 1e-9, 1e-10, 1e-12, 1e-100, 3.7, 1e100]
+
+
+def f32_normalised(v):
+    """v normalised in single precision: unit to about 6e-8 only"""
+    a = np.asarray(v, dtype=np.float32)
+    return (a / np.linalg.norm(a)).astype(float)
+
+
+def band_vectors(rng, dim, ndir=2):
+    """(region, vector): a few directions (one axis-aligned, the rest generic; for dim 4 also a pure one) at every length of BANDS,
+    plus their single-precision normalisations"""
+    dirs = [np.eye(dim)[rng.integers(dim)]]
+    for _ in range(ndir):
+        d = rng.standard_normal(dim); dirs.append(d / np.linalg.norm(d))
+    if dim == 4:
+        d = np.r_[0.0, rng.standard_normal(3)]; dirs.append(d / np.linalg.norm(d))
+    out = []
+    for d in dirs:
+        for b in BANDS:
+            out.append((f'band-{b!r}', d * b))
+        out.append(('float32-normalised', f32_normalised(d * 3.0)))
+        out.append(('float32-normalised-scaled', f32_normalised(d * 3.0) * (1 + 3e-7)))
+    return out
+
+
 def vectors(rng, n, dim=4):
-    """finite non-zero vectors: the edge set, then direction on the sphere x norm 10^U(-100,100)"""
+    """finite non-zero vectors: the edge set, the thin bands of the length, then direction on the sphere x norm 10^U(-100,100)"""
     out = []
     for k in range(dim):
         e = np.zeros(dim); e[k] = 1.0
@@ -170,6 +199,8 @@ def vectors(rng, n, dim=4):
     out.append(('norm-1e-100', _dir(rng)[:dim] / np.linalg.norm(_dir(rng)[:dim]) * 1e-100))
     out.append(('norm-1e100', np.ones(dim) / math.sqrt(dim) * 1e100))
     out.append(('mixed-magnitudes', np.array([1e-60, 1e-20, 1.0, 1e-90][:dim])))
+    out += band_vectors(rng, dim)
+    n = max(n, len(out) + 20)
     while len(out) < n:
         d = rng.standard_normal(dim); d /= np.linalg.norm(d)
         out.append(('generic', d * 10.0 ** rng.uniform(-100, 100)))
@@ -260,6 +291,7 @@ def correspondence(ctx):
     ctx.correspond('C11_DCM_matrix', mc, I['DCM_matrix'])
     ctx.correspond('C11_Q_dcm', mc, I['Q_dcm'], tol_ulp=1024, up_to_sign=False)
     axes = [v[:3] for v in mod] + [np.zeros(3), np.array([0.0, 0.0, 2.0]), np.array([1e-100, 0.0, 0.0])]
+    axes += [v for _, v in band_vectors(rng, 3, ndir=1) if 1e-100 <= np.linalg.norm(v) <= 1e3]
     ctx.correspond('C11_DCM_axang_c', [cm.d(K, a) for a in axes], I['DCM_axang_c'])
     _corr_routes(ctx)
     _corr_decision(ctx)
@@ -338,10 +370,13 @@ def _corr_routes(ctx):
         cs = [_cs(ch, t) for ch, t in zip(seq, angs)]
         exprs.append('Frs [' + '; '.join(f"(A{ch.upper()}, {_hx(u)}, {_hx(w)})" for ch, (u, w) in zip(seq, cs)) + ']')
         calls.append((('euler', seq, angs), (lambda seq=seq, angs=angs: np.asarray(ahrs.DCM(euler=(seq, angs))))))
-    for i in range(n):
+    bands3 = [v for _, v in band_vectors(rng, 3, ndir=1) if 1e-100 <= np.linalg.norm(v) <= 1e3]
+    for i in range(n + len(bands3)):
         ax = rng.standard_normal(3) * 10.0 ** rng.uniform(-3, 3)
         if i % 7 == 0:
             ax = np.eye(3)[i % 3] * (2.0 if i % 2 else 1.0)
+        if i >= n:
+            ax = bands3[i - n]
         t = float(rng.uniform(-7, 7)) if i % 6 else [0.0, math.pi, -math.pi, 1e-9, 2 * math.pi, 100.0][(i // 6) % 6]
         exprs.append('Frod ' + ' '.join(_hx(x) for x in ax) + f" {_hx(np.cos(t))} {_hx(np.sin(t))}")
         calls.append((('axang', ax.tolist(), t), (lambda ax=ax, t=t: np.asarray(ahrs.DCM(axang=(ax.copy(), t))))))
@@ -578,6 +613,9 @@ def o_ops(inp):
     if op in ('add', 'sub'):
         p, q = np.array(inp['p'], float), np.array(inp['q'], float)
         a, b = ahrs.Quaternion(p), ahrs.Quaternion(q)
+        for o in (a, b):
+            if cm.maxabs(np.linalg.norm(np.asarray(o)), 1.0) > TOL:
+                return {'tag': 'Quaternion/not-unit', 'observed': np.asarray(o)}
         s = np.asarray(a) + np.asarray(b) if op == 'add' else np.asarray(a) - np.asarray(b)
         if np.linalg.norm(s) < 1e-9:
             try:
@@ -621,7 +659,8 @@ def o_ops(inp):
         if e:
             return e
         qn = q / np.linalg.norm(q)
-        ref = np.array([cm.qmul(qn, p / np.linalg.norm(p)) for p in rows])
+        rows4 = rows if rows.shape[1] == 4 else np.c_[np.zeros(rows.shape[0]), rows]
+        ref = np.array([cm.qmul(qn, p / np.linalg.norm(p)) for p in rows4])
         if cm.maxabs(np.asarray(r), ref) > 1e-11:
             return {'tag': 'rotate_by/not-the-product', 'observed': np.asarray(r), 'expected': ref}
         if inp.get('twice'):
@@ -634,7 +673,21 @@ def o_ops(inp):
         Qa = ahrs.QuaternionArray(rows)
         w = inp.get('weights')
         r = Qa.average(weights=np.array(w, float)) if w is not None else Qa.average()
-        return unitq(r, 'average', (4,))
+        e = unitq(r, 'average', (4,))
+        if e:
+            return e
+        # the average is the dominant eigenvector of sum w_i^2 q_i q_i^T (up to sign), whenever that one is well separated
+        A = np.asarray(Qa, float) * (np.array(w, float)[:, None] if w is not None else 1.0)
+        ev, V = np.linalg.eigh(A.T @ A)
+        if ev[-1] - ev[-2] > 1e-3 * ev[-1]:
+            ref = V[:, -1]
+            if min(cm.maxabs(np.asarray(r), ref), cm.maxabs(np.asarray(r), -ref)) > 1e-8:
+                return {'tag': 'average/not-the-dominant-eigenvector', 'observed': np.asarray(r), 'expected': ref}
+        if inp.get('twice'):
+            r2 = Qa.average(weights=np.array(w, float)) if w is not None else Qa.average()
+            if cm.maxabs(np.asarray(r2), np.asarray(r)) > 0:
+                return {'tag': 'average/second-call-differs', 'observed': np.asarray(r2), 'expected': np.asarray(r)}
+        return None
     raise ValueError(op)
 
 
@@ -746,7 +799,8 @@ def search(ctx, scale):
     # ---- constructors on finite non-zero vectors, norms 1e-100 .. 1e100, all container forms, N in NS
     v4, v3 = vectors(rng, n, 4), vectors(rng, n, 3)
     forms = ('ndarray', 'list', 'tuple')
-    for i, ((r4, a), (r3, b)) in enumerate(zip(v4, v3)):
+    for i in range(max(len(v4), len(v3))):
+        (r4, a), (r3, b) = v4[i % len(v4)], v3[i % len(v3)]
         for entry in ('Quaternion', 'QuaternionArray'):
             for rows, reg in ((a, r4), (b, r3)):
                 inp = {'entry': entry, 'rows': [rows.tolist()], 'form': forms[i % 3], 'region': reg}
@@ -777,6 +831,15 @@ def search(ctx, scale):
             for op, qq in (('sub', p), ('add', -p), ('sub', p * 3.0), ('add', p * (1 + 1e-9))):
                 inp = {'op': op, 'p': p.tolist(), 'q': qq.tolist()}
                 ctx.check('ops', inp, cm_call(o_ops, inp, op), nontrivial_key=(op, 'cancel', i))
+    # pure operands (3-vectors / scalar part exactly 0), every length band, mixed with 4-vectors
+    pure = [v for _, v in v3 if 1e-100 <= np.linalg.norm(v) <= 1e100]
+    for i, p in enumerate(pure):
+        q = pure[(5 * i + 1) % len(pure)]
+        q4 = mod[(3 * i + 1) % len(mod)]
+        for op in ('add', 'sub'):
+            for qq in (q, q4, np.r_[0.0, q]):
+                inp = {'op': op, 'p': p.tolist(), 'q': np.asarray(qq).tolist()}
+                ctx.check('ops', inp, cm_call(o_ops, inp, op), nontrivial_key=(op, 'pure', i, len(qq)))
     # ---- random attitudes: bound draws (corners of the cube included), free draws, every N, both representations
     us = [[0, 0, 0], [1, 0, 0], [0, 1, 1], [1, 1, 1], [0.5, 0.5, 0.5], [1e-300, 0.25, 0.75], [1 - 2 ** -53, 0.1, 0.2]]
     us += [rng.uniform(0, 1, 3).tolist() for _ in range(n)]
@@ -803,8 +866,50 @@ def search(ctx, scale):
         if i % 3 == 0:
             inp['weights'] = rng.uniform(0.5, 2.0, N).tolist()
         ctx.check('ops', inp, cm_call(o_ops, inp, 'average'), nontrivial_key=('average', N, i))
+    # thin regions: rotating quaternion at every length band; rows that are pure quaternions / given as an N-by-3 array /
+    # half-turn sets; averages of half-turn sets (dominant eigenvector with scalar part exactly 0), of identical rows,
+    # of a single row, of axis-aligned rows, with and without weights, called twice
+    bq = band_vectors(rng, 4, ndir=1)
+    for i, (reg, q) in enumerate(bq):
+        N = NS[i % len(NS)]
+        kind = i % 3
+        if kind == 0:
+            rows = [(rng.standard_normal(3) * 10.0 ** rng.uniform(-3, 3)).tolist() for _ in range(N)]           # N-by-3
+        elif kind == 1:
+            rows = [np.r_[0.0, rng.standard_normal(3)].tolist() for _ in range(N)]                                 # pure, N-by-4
+        else:
+            rows = [(cm.rand_unit_quat(rng) * BANDS[(i + k) % len(BANDS)]).tolist() for k in range(N)]
+        inp = {'op': 'rotate_by', 'rows': rows, 'q': q.tolist(), 'form': forms[i % 3], 'twice': i % 2 == 0, 'region': reg}
+        ctx.check('ops', inp, cm_call(o_ops, inp, 'rotate_by'), nontrivial_key=('rotate_by', 'band', reg, i))
+    av = []
+    for N in NS:
+        v = rng.standard_normal(3)
+        av.append(('N-by-3 noisy', (v + 0.05 * rng.standard_normal((N, 3))).tolist()))
+        av.append(('pure N-by-4 noisy', np.c_[np.zeros(N), v + 0.05 * rng.standard_normal((N, 3))].tolist()))
+        av.append(('copies of a half-turn', np.tile(np.r_[0.0, v], (N, 1)).tolist()))
+        av.append(('copies of an axis half-turn', np.tile([0.0, 0.0, 0.0, 2.0], (N, 1)).tolist()))
+        av.append(('copies of the identity', np.tile([1.0, 0.0, 0.0, 0.0], (N, 1)).tolist()))
+        av.append(('copies of a generic quaternion', np.tile(cm.rand_unit_quat(rng) * 3.0, (N, 1)).tolist()))
+        av.append(('half-turns about x+-0.1y', [[0.0, 1.0, 0.1 * (-1) ** k, 0.0] for k in range(N)]))
+        av.append(('negative scalar parts', (-np.abs(cm.rand_unit_quat(rng)) + 0.05 * rng.standard_normal((N, 4))).tolist()))
+        av.append(('tiny scalar parts', np.c_[1e-9 * rng.standard_normal(N), v + 0.05 * rng.standard_normal((N, 3))].tolist()))
+        av.append(('length bands', [(np.r_[0.3, v] * BANDS[(N + k) % len(BANDS)]).tolist() for k in range(N)]))
+    for i, (reg, rows) in enumerate(av):
+        inp = {'op': 'average', 'rows': rows, 'region': reg, 'twice': i % 2 == 0}
+        if i % 4 == 1:
+            inp['weights'] = rng.uniform(0.5, 2.0, len(rows)).tolist()
+        ctx.check('ops', inp, cm_call(o_ops, inp, 'average'), nontrivial_key=('average', reg, len(rows)))
     # ---- DCM routes
     qs = cm.quats(rng, n)
+    # thin regions: DCM(q=) and DCM(axang=) with the quaternion / axis at every length band (a valid axis of any non-zero
+    # length must give the rotation asked for: never rejected, never merely "accepted by the gate")
+    for i, (reg, q) in enumerate(band_vectors(rng, 4, ndir=1)):
+        inp = {'route': 'q', 'q': q.tolist(), 'form': forms[i % 3], 'region': reg}
+        ctx.check('dcm_route', inp, cm_call(o_dcm_route, inp, 'DCM(q=)'), nontrivial_key=('q', 'band', reg, i))
+    angs = [0.75, -2.0, math.pi, 1e-6, 3.0, -0.1, math.pi / 2, 6.0]
+    for i, (reg, ax) in enumerate(band_vectors(rng, 3, ndir=2)):
+        inp = {'route': 'axang', 'axis': ax.tolist(), 'angle': angs[i % len(angs)], 'form': forms[i % 3], 'region': reg}
+        ctx.check('dcm_route', inp, cm_call(o_dcm_route, inp, 'DCM(axang=)'), nontrivial_key=('axang', 'band', reg, i))
     for i, (reg, q) in enumerate(qs):
         R = cm.Rspec(q)
         for form in forms + ('int',):
@@ -834,7 +939,8 @@ def search(ctx, scale):
         R = cm.Rspec(q)
         near = R + rng.uniform(-1e-12, 1e-12, (3, 3))
         fam = fams[i % len(fams)]
-        eps = rng.choice([-1, 1]) * 10.0 ** rng.uniform(-3.9, 0.5)
+        # the first cases sit right at the edge of the rejected class (distance just above 1e-4)
+        eps = rng.choice([-1, 1]) * (1.01e-4 if i < 18 else 10.0 ** rng.uniform(-3.9, 0.5))
         if fam == 'reflection':
             far = R @ np.diag([1.0, -1.0, 1.0][i % 3:] + [1.0, -1.0, 1.0][:i % 3]) if i % 2 else R @ np.array([[0, 1, 0], [1, 0, 0], [0, 0, 1.0]])
         elif fam == 'scaled':
